@@ -229,6 +229,36 @@ fn bounded_chunked_write_matches_whole() {
         assert!(on_disk == content, "chunking {plan:?}: file bytes differ from the written content (len {} vs {})", on_disk.len(), content.len());
         assert!(cas.get(&(i as u32)).unwrap().unwrap()[..] == content[..], "chunking {plan:?}: get() differs from the written content");
     }
+    // the same chunkings (totals up to 2 MiB) with degenerate byte patterns: all zero, all 0xFF, a zero-filled last chunk, a
+    // zero-filled first chunk, zero-filled chunks alternating with data (content identity must not depend on the byte values)
+    for (i, plan) in plans.iter().enumerate() {
+        let total: usize = plan.iter().sum();
+        if total > (2 << 20) { continue; }
+        for shape in 0..5u32 {
+            let mut content: Vec<u8> = (0..total).map(|j| ((j as u64).wrapping_mul(0x9E37_79B9).rotate_left(11) as u8) | 1).collect();
+            let mut off = 0;
+            for (ci, n) in plan.iter().enumerate() {
+                let zero = match shape { 0 => true, 1 => false, 2 => ci + 1 == plan.len(), 3 => ci == 0, _ => ci % 2 == 1 };
+                if zero { for b in &mut content[off..off + n] { *b = 0; } }
+                if shape == 1 { for b in &mut content[off..off + n] { *b = 0xFF; } }
+                off += n;
+            }
+            let key = 1000 + shape * 100 + i as u32;
+            let mut tx = cas.put(key).unwrap();
+            let mut off = 0;
+            for n in plan { tx.write(&content[off..off + n]).unwrap(); off += n; }
+            tx.finish().unwrap();
+            let want = crate::calculate_blob_hash(&content);
+            let st = cas.read_index_state();
+            let item = st.get_item(&key).unwrap(); drop(st);
+            assert_eq!(item.blob_hash, want, "chunking {plan:?} pattern {shape}: committed hash must be BLAKE3 of the whole content");
+            assert_eq!(item.blob_size, total as u64, "chunking {plan:?} pattern {shape}: recorded size");
+            let path = dir.path().join("cas").join(want.relative_path());
+            let on_disk = std::fs::read(&path).unwrap_or_else(|e| panic!("chunking {plan:?} pattern {shape}: blob not at its hash path: {e}"));
+            assert!(on_disk == content, "chunking {plan:?} pattern {shape}: file bytes differ from the written content (len {} vs {})", on_disk.len(), content.len());
+            assert!(cas.get(&key).unwrap().unwrap()[..] == content[..], "chunking {plan:?} pattern {shape}: get() differs from the written content");
+        }
+    }
 }
 
 /// bound: 64 random hashes x every single-byte difference position (32) + equal copies
@@ -619,6 +649,41 @@ fn bounded_single_io_fault_is_contained() {
         assert!(e.is_none() || e.as_deref() == Some(&b"e"[..]) || e.as_deref() == Some(&vec![7u8; 100_000][..]), "scenario {scenario}: the key of the failed operation holds neither its old nor its new value");
         sput(&cas, "key_h", b"after").unwrap(); cas.checkpoint().unwrap();
     }
+}
+
+/// bound: one failing unlink(2) of an unreferenced blob (its path is a directory while the overwrite runs: EISDIR/EPERM), then a
+/// re-put of the very same content under another key, further overwrites / removals (each of which deletes blobs), a reopen
+#[test]
+fn bounded_failed_blob_unlink_is_contained() {
+    let dir = tempfile::tempdir().unwrap();
+    let x = vec![0x58u8; 3000]; let y = vec![0x59u8; 2000];
+    let path_x = dir.path().join("cas").join(crate::calculate_blob_hash(&x).relative_path());
+    {
+        let cas = crate::Cas::<String>::open(dir.path(), fault_cfg()).unwrap();
+        sput(&cas, "k1", &x).unwrap(); sput(&cas, "other", b"untouched").unwrap();
+        // the fault: while k1 is overwritten the old blob cannot be unlinked
+        std::fs::remove_file(&path_x).unwrap(); std::fs::create_dir(&path_x).unwrap();
+        let _ = sput(&cas, "k1", &y);                       // may report the failed clean-up or not
+        let _ = std::fs::remove_dir(&path_x);               // the condition that made unlink fail is over
+        // later operations: the same content comes back under another key, and more blobs are deleted
+        sput(&cas, "k2", &x).unwrap_or_else(|e| panic!("a later put of the content whose unlink failed earlier: {e}"));
+        sput(&cas, "k3", b"z1").unwrap(); sput(&cas, "k3", b"z2").unwrap();
+        assert!(cas.remove(&"k3".to_string()).unwrap());
+        sput(&cas, "k4", b"w1").unwrap(); sput(&cas, "k4", b"w2").unwrap();
+        let check = |cas: &crate::Cas<String>, when: &str| {
+            assert_eq!(cas.get(&"other".to_string()).unwrap_or_else(|e| panic!("{when}: get(other): {e:?}")).as_deref(), Some(&b"untouched"[..]), "{when}: a key no failed operation touched");
+            let k2 = cas.get(&"k2".to_string()).unwrap_or_else(|e| panic!("{when}: get(k2) fails although only an earlier overwrite of k1 hit an unlink error: {e:?}"));
+            assert!(k2.as_deref() == Some(&x[..]), "{when}: k2 lost its content");
+            let k1 = cas.get(&"k1".to_string()).unwrap_or_else(|e| panic!("{when}: get(k1): {e:?}"));
+            assert!(k1.as_deref() == Some(&x[..]) || k1.as_deref() == Some(&y[..]), "{when}: the key of the failed operation holds neither its old nor its new value");
+            assert_eq!(cas.get(&"k4".to_string()).unwrap().as_deref(), Some(&b"w2"[..]), "{when}: k4");
+        };
+        check(&cas, "same session");
+    }
+    let cas = crate::Cas::<String>::open(dir.path(), fault_cfg()).unwrap_or_else(|e| panic!("reopen after one failed unlink: {e:?}"));
+    assert_eq!(sget(&cas, "other").as_deref(), Some(&b"untouched"[..]), "after reopen: other");
+    assert!(sget(&cas, "k2").as_deref() == Some(&x[..]), "after reopen: k2 lost its content");
+    assert_eq!(sget(&cas, "k4").as_deref(), Some(&b"w2"[..]), "after reopen: k4");
 }
 
 /// bound: one store whose only garbage is a staging file left by a crashed transaction
